@@ -146,11 +146,27 @@ def make_cases(ctx, rnd):
         conc = [2, 4, 16][i % 3]
         nb = rnd.choice([2, 3, 5])
         total = nb * B + 5
-        tail = [{"op": "close"}, {"op": "close"}] if i % 2 else [{"op": "close"}, {"op": "reset"}, {"op": "write", "n": 0}, {"op": "close"}]
+        tail = [[{"op": "close"}, {"op": "close"}], [{"op": "close"}, {"op": "reset"}, {"op": "write", "n": 0}, {"op": "close"}],
+                [{"op": "close"}, {"op": "close"}, {"op": "close"}, {"op": "reset"}, {"op": "write", "n": B + 1}, {"op": "close"}]][i % 3]
         cases.append({"id": len(cases) + 1, "kind": "writer", "lives": True, "input": {"family": "text", "len": total, "seed": 60 + i},
                       "opts": {"code": 4, "bcs": False, "ccs": True, "level": 0, "conc": conc, "legacy": False, "handler": True},
-                      "calls": [{"op": "write", "n": total}] + tail, "failAt": rnd.randrange(2, 2 * nb + 2),
+                      "calls": [{"op": "write", "n": total}] + tail, "failAt": 1 if i % 4 == 0 else rnd.randrange(2, 2 * nb + 2),
                       "seed": ctx.seed * 1000 + 1400 + i, "perturb": rnd.choice([0, 40]), "poison": True})
+    # legacy frames written concurrently (8 MiB blocks; no end mark, so Close has nothing to write but still has to wait for
+    # the pipeline and report its error)
+    for i in range(6 if q else 40):
+        conc = [2, 4, 16][i % 3]
+        total = [100000, (8 << 20) + 5, 8 << 20, (16 << 20) + 70000][i % 4 if not q else i % 2]
+        calls = [[{"op": "write", "n": total}, {"op": "close"}], [{"op": "readfrom", "n": 0}, {"op": "close"}],
+                 [{"op": "write", "n": total // 2}, {"op": "flush"}, {"op": "write", "n": total - total // 2}, {"op": "close"}]][i % 3]
+        c = {"id": len(cases) + 1, "kind": "writer", "input": {"family": "text", "len": total, "seed": 300 + i},
+             "opts": {"code": 4, "bcs": False, "ccs": False, "level": 0, "conc": conc, "legacy": True, "handler": True},
+             "calls": calls, "seed": ctx.seed * 1000 + 2000 + i, "perturb": rnd.choice([0, 40]), "poison": True}
+        if i % 3 == 2:
+            c["slowio"] = 50
+        if i >= 4 and i % 2 == 0:
+            c["failAt"] = rnd.randrange(2, 4)
+        cases.append(c)
     # a block that decodes to nothing (token 0x00) in the middle of the stream, valid blocks after it, then a block that
     # cannot be decoded, and a slow consumer: the decoding error is latched before the consumer sees the empty block
     # (TLC's counterexample to NoGoroutineLeft before fix 062dfed, D25)
